@@ -84,8 +84,13 @@ Laws ==
              /\ WinVal(T, Q0("lag", k, ws), rn, y) = RV(x)
              /\ WinVal(T, Q0("lead", k, ws), rn, x) = RV(y)
 
-Fns == <<"row_number", "rank", "dense_rank", "percent_rank", "first_value", "last_value", "count", "countstar", "sum", "avg", "min", "max">>
-Wins(w) == [i \in DOMAIN Fns |-> Q0(Fns[i], 0, w)]
-           \o << Q0("ntile", 2, w), Q0("ntile", 3, w), Q0("lag", 1, w), Q0("lead", 2, w), [Q0("lag", 2, w) EXCEPT !.def = NULL] >>
+\* functions that take the frame / functions that ignore it (emitted with the default frame)
+FrameFns == <<"first_value", "last_value", "count", "countstar", "sum", "avg", "min", "max">>
+RankFns == <<"row_number", "rank", "dense_rank", "percent_rank">>
+NoFrame(w) == [w EXCEPT !.frame = [unit |-> "none", s |-> [k |-> "up", n |-> 0], e |-> [k |-> "cr", n |-> 0]]]
+Wins(w) == [i \in DOMAIN FrameFns |-> Q0(FrameFns[i], 0, w)]
+           \o [i \in DOMAIN RankFns |-> Q0(RankFns[i], 0, NoFrame(w))]
+           \o << Q0("ntile", 2, NoFrame(w)), Q0("ntile", 3, NoFrame(w)), Q0("lag", 1, NoFrame(w)), Q0("lead", 2, NoFrame(w)),
+                 [Q0("lag", 2, NoFrame(w)) EXCEPT !.def = NULL] >>
 Emit == PrintT("CASE " \o ToJson([rows |-> MkRows(tbl'), wins |-> Wins(ws')]))
 =============================================================================
